@@ -9,7 +9,8 @@ from vlib.harness import Violation
 PID = "C07"
 RULE = ("(curve, secret key, message, alteration): keys of the four curves (valid scalars incl. 1, n-1, high-bit "
         "patterns; BLS capped because each case costs ~1 s); messages = bytes 0..512 or hex strings with/without 0x; "
-        "alterations: one bit of the message, one bit/byte of the decoded signature (re-encoded with a valid "
+        "alterations (judged before or after the genuine triple, in one process): one bit of the message, one bit of the encoded public key, the "
+        "signature bytes under another curve's prefix, one bit/byte of the decoded signature (re-encoded with a valid "
         "checksum), another key of the same curve, a key of another curve, curve-specific vs generic prefix. Oracle: "
         "sign succeeds for generic in {False, True}; verify accepts; an independent implementation (cryptography: "
         "Ed25519 / ECDSA over the Blake2b-256 digest; py_ecc pairing equation for BLS over the message) accepts; "
@@ -63,32 +64,40 @@ def oracle(case):
         except Exception as e:
             raise Violation("sign(generic=%s) raised %r for a %s key" % (generic, e, curve), case,
                             "sign-raise:%s:generic=%s" % (curve, generic))
-    for generic, sig in sigs.items():
-        dec = rc.tz_decode(sig)
-        if dec is None:
-            raise Violation("signature %s… is not a valid base58 signature" % sig[:12], case, "sig-encoding:" + curve)
-        kind, raw = dec
-        want_kind = "sig" if (generic and curve != "BL") else rc.CURVE_SIG[curve]
-        if kind != want_kind:
-            raise Violation("sign(generic=%s) for %s returned a %s-prefixed signature" % (generic, curve, kind), case,
-                            "sig-prefix:%s:generic=%s" % (curve, generic))
-        ok, err = _verify(key, sig, msg_arg)
-        if not ok:
-            raise Violation("verify rejected the key's own signature (%s, generic=%s): %r" % (curve, generic, err),
-                            case, "verify-own:" + curve)
-        if not rc.verify_independent(curve, pub, msg, raw):
-            raise Violation("independent %s verifier rejects pytezos' signature over %s" % (curve, msg.hex()[:40]),
-                            case, "independent-reject:" + curve)
-        if not _check_sig_instr(pk, sig, msg, case, "own"):
-            raise Violation("CHECK_SIGNATURE false for a valid %s signature (generic=%s)" % (curve, generic), case,
-                            "check_signature-own:" + curve)
-    sig = sigs[case.get("alt_generic", False)]
-    kind, raw = rc.tz_decode(sig)
+    def own():
+        for generic, sig in sigs.items():
+            dec = rc.tz_decode(sig)
+            if dec is None:
+                raise Violation("signature %s… is not a valid base58 signature" % sig[:12], case, "sig-encoding:" + curve)
+            kind, raw = dec
+            want_kind = "sig" if (generic and curve != "BL") else rc.CURVE_SIG[curve]
+            if kind != want_kind:
+                raise Violation("sign(generic=%s) for %s returned a %s-prefixed signature" % (generic, curve, kind), case,
+                                "sig-prefix:%s:generic=%s" % (curve, generic))
+            ok, err = _verify(key, sig, msg_arg)
+            if not ok:
+                raise Violation("verify rejected the key's own signature (%s, generic=%s): %r" % (curve, generic, err),
+                                case, "verify-own:" + curve)
+            if not rc.verify_independent(curve, pub, msg, raw):
+                raise Violation("independent %s verifier rejects pytezos' signature over %s" % (curve, msg.hex()[:40]),
+                                case, "independent-reject:" + curve)
+            if not _check_sig_instr(pk, sig, msg, case, "own"):
+                raise Violation("CHECK_SIGNATURE false for a valid %s signature (generic=%s)" % (curve, generic), case,
+                                "check_signature-own:" + curve)
+
     alt = case.get("alt")
+    if not (alt and case.get("alt_first")):
+        own()
     if not alt:
         return
+    sig = sigs[case.get("alt_generic", False)]
+    dec = rc.tz_decode(sig)
+    if dec is None:
+        raise Violation("signature %s… is not a valid base58 signature" % sig[:12], case, "sig-encoding:" + curve)
+    kind, raw = dec
     what = alt["kind"]
     a_key, a_sig, a_msg = key, sig, msg
+    a_pk = None
     if what == "msg-bit":
         if not msg:
             a_msg = b"\x00"
@@ -104,20 +113,42 @@ def oracle(case):
         else:
             b[i] = (b[i] + 1 + alt["bit"]) % 256
         a_sig = rc.tz_encode(bytes(b), kind)
+    elif what == "sig-foreign":   # the same bytes written under another curve's signature prefix: not a signature of this key's scheme
+        if curve == "BL":
+            return
+        a_sig = rc.tz_encode(raw, rc.CURVE_SIG[alt["curve"]])
     elif what == "other-key":
         a_key = _key(curve, alt["secret"])
         if a_key.public_point == pub:
             return
     elif what == "other-curve":
         a_key = _key(alt["curve"], alt["secret"])
-    ok, err = _verify(a_key, a_sig, a_msg)
-    if ok:
-        raise Violation("verify accepted an altered triple (%s, %s key)" % (what, curve), case, "accepts-altered:" + what)
-    if not isinstance(err, ValueError):
-        raise Violation("verify raised %r instead of ValueError for an altered triple (%s)" % (err, what), case,
-                        "reject-not-valueerror:%s:%s" % (what, type(err).__name__))
-    if _check_sig_instr(a_key.public_key(), a_sig, a_msg, case, what):
+    elif what == "key-bit":       # one bit of the encoded public key changed (valid checksum): another key, or no key at all
+        from pytezos.crypto.key import Key
+        b = bytearray(pub)
+        b[alt["i"] % len(b)] ^= 1 << (alt["bit"] % 8)
+        a_pk = rc.tz_encode(bytes(b), rc.CURVE_PK[curve])
+        try:
+            a_key = Key.from_encoded_key(a_pk)
+        except Exception:
+            a_key = None   # refused at import: rejected
+    if a_key is not None:
+        ok, err = _verify(a_key, a_sig, a_msg)
+        if ok:
+            raise Violation("verify accepted an altered triple (%s, %s key)" % (what, curve), case, "accepts-altered:" + what)
+        if not isinstance(err, ValueError) and what != "key-bit":  # (an altered key encoding may be no key at all: any refusal counts)
+            raise Violation("verify raised %r instead of ValueError for an altered triple (%s)" % (err, what), case,
+                            "reject-not-valueerror:%s:%s" % (what, type(err).__name__))
+    if what == "key-bit":
+        try:
+            verdict = _check_sig_instr(a_pk, a_sig, a_msg, case, what)
+        except Violation:
+            verdict = False   # the altered key literal is refused by PUSH: rejected
+    else:
+        verdict = _check_sig_instr(a_key.public_key(), a_sig, a_msg, case, what)
+    if verdict:
         raise Violation("CHECK_SIGNATURE true for an altered triple (%s)" % what, case, "check_signature-altered:" + what)
+    own()   # the genuine triple is still accepted afterwards (and, with alt_first, was not judged before)
 
 
 def oracle_bulk(case):
@@ -170,7 +201,7 @@ def cases(draw, curves):
         case["msg_hex_str"] = "0x" + m.hex()
     else:
         case["msg"] = m.hex()
-    kind = draw(st.sampled_from(["msg-bit", "sig-bit", "sig-byte", "other-key", "other-curve", None]))
+    kind = draw(st.sampled_from(["msg-bit", "sig-bit", "sig-byte", "other-key", "other-curve", "key-bit", "key-bit", "sig-foreign", None]))
     if kind:
         alt = {"kind": kind, "i": draw(st.integers(0, 600)), "bit": draw(st.integers(0, 7))}
         if kind == "other-key":
@@ -178,8 +209,11 @@ def cases(draw, curves):
         if kind == "other-curve":
             oc = draw(st.sampled_from([c for c in ["ed", "sp", "p2"] if c != curve]))
             alt["curve"], alt["secret"] = oc, draw(gen_keys.secret(oc)).hex()
+        if kind == "sig-foreign":
+            alt["curve"] = draw(st.sampled_from([c for c in ["ed", "sp", "p2"] if c != curve]))
         case["alt"] = alt
         case["alt_generic"] = draw(st.booleans())
+        case["alt_first"] = draw(st.booleans())
     return case
 
 
